@@ -100,6 +100,11 @@ func runC12(args []string, in *bufio.Scanner, out *bufio.Writer) {
 					case r < 4:
 						uniq := (c+1)*100000 + s
 						sql, desc = fmt.Sprintf("UPDATE acct SET v = %d WHERE %s = %d;", uniq, dim, idx), fmt.Sprintf("W %s %d %d", dim, idx, uniq)
+						if rng.Intn(3) == 0 {
+							// the same update through a sequential scan (it locks rows of other groups on its way: lost lock
+							// conflicts in the middle of the statement, after some rows were changed already)
+							sql = fmt.Sprintf("UPDATE acct SET v = %d WHERE %s = %d OR %s = %d;", uniq, dim, idx, dim, idx)
+						}
 					case r < 8:
 						sql, desc = fmt.Sprintf("SELECT k,v FROM acct WHERE %s = %d;", dim, idx), fmt.Sprintf("R %s %d", dim, idx)
 					default:
